@@ -129,6 +129,8 @@ pub fn eval(ctx: &Ctx, case: &Case) {
                             ctx.violation("Sm2PublicKey::to_hex_string", &format!("wrong-hex/{}/{}", form, tag), h.clone(), cj());
                         }
                         same_pub(ctx, "Sm2PublicKey::from_hex_string", &format!("{}/{}", form, tag), guard(|| es(Sm2PublicKey::from_hex_string(&h))), &want, &cj);
+                        // the same text with its first digit dropped (odd length): no key
+                        must_reject(ctx, "Sm2PublicKey::from_hex_string", "hex-odd-length/first-digit-dropped", guard(|| es(Sm2PublicKey::from_hex_string(&h[1..])).map(|_| ())), h[1..].to_string(), &cj);
                         // upper-case hex is not demanded by the property: only "no panic" (and, if accepted, the right point)
                         ctx.call();
                         match guard(|| es(Sm2PublicKey::from_hex_string(&h.to_uppercase()))) {
@@ -201,6 +203,18 @@ pub fn eval(ctx: &Ctx, case: &Case) {
                         ctx.violation("Sm2PrivateKey::to_hex_string", &format!("wrong-hex/{}", tag), h.clone(), cj());
                     }
                     same_priv(ctx, "Sm2PrivateKey::from_hex_string", tag, guard(|| Sm2PrivateKey::from_hex_string(&h)), &d, &cj);
+                    // odd-length text (the first digit dropped: a lenient decoder pads it back) and 66 digits (00 in front): no key
+                    must_reject(ctx, "Sm2PrivateKey::from_hex_string", "hex-odd-length", guard(|| Sm2PrivateKey::from_hex_string(&h[1..]).map(|_| ())), h[1..].to_string(), &cj);
+                    must_reject(ctx, "Sm2PrivateKey::from_hex_string", "hex-66-digits-leading-00", guard(|| Sm2PrivateKey::from_hex_string(&format!("00{}", h)).map(|_| ())), format!("00{}", h), &cj);
+                    must_reject(ctx, "Sm2PrivateKey::from_hex_string", "hex-66-digits-trailing-00", guard(|| Sm2PrivateKey::from_hex_string(&format!("{}00", h)).map(|_| ())), format!("{}00", h), &cj);
+                    {
+                        let raw = cand(&d);
+                        let lead: Vec<u8> = [vec![0u8], raw.to_vec()].concat();
+                        let trail: Vec<u8> = [raw.to_vec(), vec![0u8]].concat();
+                        must_reject(ctx, "Sm2PrivateKey::new", "33-octets-leading-00", guard(|| es(Sm2PrivateKey::new(&lead)).map(|_| ())), hex::encode(&lead), &cj);
+                        must_reject(ctx, "Sm2PrivateKey::new", "33-octets-trailing-00", guard(|| es(Sm2PrivateKey::new(&trail)).map(|_| ())), hex::encode(&trail), &cj);
+                        must_reject(ctx, "Sm2PrivateKey::new", "31-octets", guard(|| es(Sm2PrivateKey::new(&raw[1..])).map(|_| ())), hex::encode(&raw[1..]), &cj);
+                    }
                     // a sign, a blank, an 'x' or a 'g' in place of a hex digit: never a key (integer parsers accept "+b")
                     for pos in [0usize, 1, 2, 31, 62, 63] {
                         for ch in ['+', '-', ' ', 'x', 'g', '_'] {
